@@ -4,6 +4,11 @@
 //	tth dec <hex>                                                => <decode result>   (ttheader.DecodeFromBytes)
 //	tth decs <hex> <src>                                         => <decode result>   src = b<cap> | script
 //	decode result = ok <flags> <seq> <proto> <hl> <pl> <int> <str> <readlen> | err <e> <readlen> | PANIC <class>
+//
+// A successful decode is rendered only after the memory the frame was read from has been used again (the byte
+// slice overwritten; the stream reader drained, released and its pooled buffers taken by other readers / a writer
+// that decode and read different bytes): see scribble / recycle. The maps Decode returned are those of the frame
+// (C10) / those encoded (C06) - not views of a buffer that goes on living.
 package main
 
 import (
@@ -65,19 +70,27 @@ func strMapStr(m map[string]string) string {
 	if len(m) == 0 {
 		return "0"
 	}
-	ks := make([]string, 0, len(m))
-	for k := range m {
-		ks = append(ks, k)
+	// the pairs as the map holds them now (ranged, never looked up by key: should the bytes of a key have
+	// changed under the map, the entry is still shown, with its present key and value)
+	type kv struct{ k, v string }
+	ps := make([]kv, 0, len(m))
+	for k, v := range m {
+		ps = append(ps, kv{k, v})
 	}
-	sort.Strings(ks)
+	sort.Slice(ps, func(i, j int) bool {
+		if ps[i].k != ps[j].k {
+			return ps[i].k < ps[j].k
+		}
+		return ps[i].v < ps[j].v
+	})
 	var sb strings.Builder
-	for i, k := range ks {
+	for i, p := range ps {
 		if i > 0 {
 			sb.WriteByte(',')
 		}
-		sb.WriteString(hexE(k))
+		sb.WriteString(hexE(p.k))
 		sb.WriteByte('=')
-		sb.WriteString(hexE(m[k]))
+		sb.WriteString(hexE(p.v))
 	}
 	return sb.String()
 }
@@ -140,6 +153,20 @@ func decRes(p ttheader.DecodeParam, err error, rl int) string {
 
 // ---------------------------------------------------------------- running the real code
 
+// Everything a successful decode returns is rendered only AFTER the memory the frame was read from has been
+// used again, the way a connection loop does: the caller's byte slice is overwritten (every byte changed),
+// a stream-backed reader is drained and released, and other reader instances drawing from the same buffer
+// pool decode a different frame and read unrelated bytes. What Decode returned is what the frame said
+// (C10, C06), so on code that keeps the statement none of this is visible in the result.
+
+// scribble changes every byte of the caller-owned receive buffer, spare capacity included
+func scribble(buf []byte) {
+	buf = buf[:cap(buf)]
+	for i := range buf {
+		buf[i] ^= 0xff
+	}
+}
+
 func runDecBytes(b []byte, c int) string {
 	return lib.Guard(func() string {
 		if c < len(b) {
@@ -149,7 +176,12 @@ func runDecBytes(b []byte, c int) string {
 		copy(buf, b)
 		r := bufiox.NewBytesReader(buf)
 		p, err := ttheader.Decode(ctx, r)
-		return decRes(p, err, r.ReadLen())
+		rl := r.ReadLen()
+		if err == nil {
+			r.Release(nil)
+			scribble(buf)
+		}
+		return decRes(p, err, rl)
 	})
 }
 
@@ -165,6 +197,9 @@ func runDecFromBytes(b []byte) string {
 		if !bytes.Equal(bs, b) {
 			return "DIVERGE input-modified"
 		}
+		if err == nil {
+			scribble(bs) // the receive buffer is the caller's again: it is refilled
+		}
 		f := strings.Fields(explicit)
 		rl := 0
 		if len(f) > 0 {
@@ -178,12 +213,107 @@ func runDecFromBytes(b []byte) string {
 	})
 }
 
+// otherFrame builds a valid frame of exactly n bytes (n = 14 + a declared size that Decode accepted) that
+// differs from b in (almost) every byte: the info area is the complement of b's, overlaid with ACL-token
+// section headers so that it parses
+func otherFrame(b []byte, n int) []byte {
+	if n < 18 || (n-14)%4 != 0 || n > len(b) {
+		n = 18
+	}
+	body := make([]byte, n-14)
+	for i := range body {
+		if 14+i < len(b) {
+			body[i] = ^b[14+i]
+		} else {
+			body[i] = 0xa5
+		}
+	}
+	body[0], body[1] = 0, 0 // protocol id, no transforms
+	at := 2
+	for len(body)-at >= 3 {
+		l := len(body) - at - 3
+		if l > 65535 {
+			l = 65535
+		}
+		body[at], body[at+1], body[at+2] = 0x11, byte(l>>8), byte(l)
+		at += 3 + l
+	}
+	for ; at < len(body); at++ {
+		body[at] = 0 // padding
+	}
+	total, flags, seq := uint32(0xa5a5a5a5), 0xa5a5, uint32(0x5a5a5a5a)
+	if len(b) >= 12 {
+		total, flags, seq = ^binary.BigEndian.Uint32(b), int(^binary.BigEndian.Uint16(b[6:])), ^binary.BigEndian.Uint32(b[8:])
+	}
+	return mkFrame(total, 0x1000, flags, seq, len(body)/4, body)
+}
+
+// drain consumes whatever the reader still delivers (at most max+1 bytes are expected) and releases it:
+// with nothing left unread, Release hands the reader's buffers back to the shared pool
+func drain(r *bufiox.DefaultReader, max int) {
+	r.Release(nil) // the per-message Release: unread bytes move to the front of the buffer
+	for i := 0; i <= max; i++ {
+		if _, err := r.Next(1); err != nil {
+			break
+		}
+	}
+	r.Release(nil)
+}
+
+// fillTo pads s with 0xa5 up to the buffer size a reader ends with after reading len(s) bytes
+func fillTo(s []byte) []byte {
+	n := 4096
+	for n < len(s) {
+		n *= 2
+	}
+	out := make([]byte, n)
+	for i := copy(out, s); i < n; i++ {
+		out[i] = 0xa5
+	}
+	return out
+}
+
+// recycle: the connection is done with this message. Its reader is drained and released; a second reader (another
+// connection) decodes a different frame of the same size, a third one reads the complement of the first stream in one
+// piece, and a writer mallocs and flushes the same amount: each draws its buffers from the pool the first reader's
+// buffers went back to.
+func recycle(r *bufiox.DefaultReader, b []byte, rl int) {
+	drain(r, len(b))
+	f2 := otherFrame(b, rl)
+	r2 := bufiox.NewDefaultReader(bytes.NewReader(fillTo(f2)))
+	if _, err := ttheader.Decode(ctx, r2); err == nil {
+		em.Count("decs-recycle:second-frame-ok")
+	} else {
+		em.Count("decs-recycle:second-frame-err")
+	}
+	drain(r2, 2*len(f2)+4096)
+	comp := make([]byte, len(b))
+	for i := range b {
+		comp[i] = ^b[i]
+	}
+	comp = fillTo(comp)
+	r3 := bufiox.NewDefaultReader(bytes.NewReader(comp))
+	r3.Next(14)
+	r3.Next(len(comp) - 14)
+	r3.Release(nil)
+	var sink bytes.Buffer
+	w := bufiox.NewDefaultWriter(&sink)
+	if mb, err := w.Malloc(len(comp)); err == nil {
+		copy(mb, comp)
+	}
+	w.Flush()
+}
+
 func runDecScript(b []byte, sc string) string {
 	return lib.Guard(func() string {
 		s := lib.NewSource(b, lib.ParseScript(sc))
 		r := bufiox.NewDefaultReader(s)
 		p, err := ttheader.Decode(ctx, r)
-		return decRes(p, err, r.ReadLen())
+		rl := r.ReadLen()
+		if err == nil {
+			recycle(r, b, rl)
+		}
+		return decRes(p, err, rl)
 	})
 }
 
@@ -213,11 +343,28 @@ func runEnc(wk string, param ttheader.EncodeParam, plen int) string {
 		var buf []byte
 		var sink bytes.Buffer
 		var w bufiox.Writer
+		pre := 0 // bytes the writer already holds, unflushed, when Encode is called (kinds B, D: a pipelined second frame)
 		switch wk {
 		case "b":
 			w = bufiox.NewBytesWriter(&buf)
 		case "d":
 			w = bufiox.NewDefaultWriter(&sink)
+		case "B", "D":
+			if wk == "B" {
+				w = bufiox.NewBytesWriter(&buf)
+			} else {
+				w = bufiox.NewDefaultWriter(&sink)
+			}
+			pre = 1 + (int(param.SeqID)&0x7fffffff+len(param.IntInfo)*7+len(param.StrInfo)*13+plen&0xff)%97
+			if len(param.StrInfo)%2 == 1 {
+				pre += 4096 // beyond the first buffer: the earlier bytes sit in a parked buffer until Flush
+			}
+			if pre%2 == 0 {
+				w.WriteBinary(payload(pre))
+			} else {
+				pb, _ := w.Malloc(pre)
+				copy(pb, payload(pre))
+			}
 		default: // a writer whose Flush failed before: every later call returns the sticky error
 			dw := bufiox.NewDefaultWriter(failSink{})
 			dw.Malloc(1)
@@ -228,15 +375,21 @@ func runEnc(wk string, param ttheader.EncodeParam, plen int) string {
 		if err != nil {
 			return "err"
 		}
-		hl := w.WrittenLen()
+		hl := w.WrittenLen() - pre
 		binary.BigEndian.PutUint32(tl, uint32(hl+plen-4)) // the caller's duty, before Flush
 		if err := w.Flush(); err != nil {
 			return "err"
 		}
-		if wk == "b" {
+		if wk == "b" || wk == "B" {
 			frame = buf
 		} else {
 			frame = sink.Bytes()
+		}
+		if pre > 0 {
+			if len(frame) < pre || !bytes.Equal(frame[:pre], payload(pre)) {
+				return "ok prefix-clobbered"
+			}
+			frame = frame[pre:]
 		}
 		// plen < 0: a total-length field that is smaller than the header (never back-filled, or a hostile
 		// frame): no payload follows; PayloadLen must still be total + 4 - HeaderLen = plen
@@ -271,8 +424,8 @@ func (w *countWriter) Malloc(n int) ([]byte, error) {
 	return b, nil
 }
 func (w *countWriter) WriteBinary(bs []byte) (int, error) { w.n += len(bs); return len(bs), nil }
-func (w *countWriter) WrittenLen() int                      { return w.n }
-func (w *countWriter) Flush() error                         { return nil }
+func (w *countWriter) WrittenLen() int                    { return w.n }
+func (w *countWriter) Flush() error                       { return nil }
 
 // runEncSize: Encode of {StrInfo: {"k": <L zero bytes>}} into a counting writer:
 // "err" | "ok <size field> <bytes written>". The value is never touched (untouched zero pages).
@@ -476,7 +629,14 @@ func emitEnc(class, wk string, p ttheader.EncodeParam, plen int) {
 	}
 	em.Line(res, "tth", "enc", wk, strconv.Itoa(int(p.Flags)), strconv.Itoa(int(p.SeqID)),
 		strconv.Itoa(int(p.ProtocolID)), intMapOp(p.IntInfo), strMapOp(p.StrInfo), strconv.Itoa(plen))
+	// the same parameters into a writer that already holds unflushed bytes (a pipelined frame): the frame is the same
+	encCount++
+	if (wk == "b" || wk == "d") && encCount%3 == 0 && f[0] == "ok" && len(f[1]) < 40000 {
+		emitEnc(class+":pipelined", strings.ToUpper(wk), p, plen)
+	}
 }
+
+var encCount int
 
 // unpadded info size of a parameter set (harness-side arithmetic, for statistics and generators)
 func infoRaw(p ttheader.EncodeParam) int {
